@@ -147,7 +147,8 @@ class Recorder:
             g = self.viol_groups.setdefault(gkey, {"oracle": v["oracle"], "cls": v["cls"], "count": 0, "examples": []})
             g["count"] += 1
             if len(g["examples"]) < MAX_VIOL_PER_GROUP_PER_BLOCK:
-                g["examples"].append({"case": out.case, "observed": v["observed"], "expected": v["expected"], "detail": v["detail"]})
+                g["examples"].append({"case": out.case, "observed": v["observed"], "expected": v["expected"], "detail": v["detail"],
+                                      "block": self.block})
         # seed-dependent sample selection (does not influence the verdict)
         rank = hv ^ ((self.seed * 0x9E3779B97F4A7C15) & 0xFFFFFFFFFFFFFFFF)
         if len(self.samples) < 2 or rank < self.samples[-1][0]:
@@ -294,7 +295,10 @@ def _finish(module, tier, seed, blocks, results, capped, t0):
     unknown.sort(key=lambda g: (g["oracle"], len(jdump(g["examples"][0]["case"]))))
     for n, g in enumerate(unknown[:MAX_GROUPS_PRINTED]):
         ex = g["examples"][0]
-        # re-execute the failing case once in this process: it must fail identically
+        # re-execute the failing case once in this process.  A violation that does not recur on the isolated case is
+        # history-dependent (state carried between calls): it is then re-checked by re-running its whole block, and is
+        # reported as a VIOLATION in either case (the exploration did observe it); the replay file says how it reproduces.
+        reproduced = "case"
         try:
             out2 = module.replay_case(ex["case"])
             again = [v for v in out2.viol if v["oracle"] == g["oracle"]]
@@ -302,19 +306,27 @@ def _finish(module, tier, seed, blocks, results, capped, t0):
             again = None
             internal.append("replay of %s raised %r" % (g["oracle"], e))
         if again is not None and not again:
-            internal.append("non-reproducing violation of %s on case %s" % (g["oracle"], jdump(ex["case"])[:300]))
-            continue
+            reproduced = "not on the isolated case (history-dependent)"
+            try:
+                rec2 = Recorder(pid, ex.get("block"), seed)
+                module.run_block(ex.get("block"), rec2)
+                if any(gg["oracle"] == g["oracle"] for gg in rec2.viol_groups.values()):
+                    reproduced = "block (history-dependent: fails when its block is re-run from the start, not on the isolated case)"
+            except Exception as e:  # noqa
+                internal.append("block re-run for %s raised %r" % (g["oracle"], e))
         path = os.path.join(REPLAY_DIR, "%s-%s-%d.json" % (pid, g["oracle"], n))
         with open(path, "w") as f:
             f.write(jdump({
                 "property": pid, "oracle": g["oracle"], "cls": g["cls"], "count": g["count"],
                 "case": ex["case"], "observed": ex["observed"], "expected": ex["expected"], "detail": ex["detail"],
+                "block": ex.get("block"), "reproduced": reproduced,
                 "replay_cmd": "./check %s --replay %s" % (pid, path),
             }, indent=1))
         replay_paths.append(path)
         if True:
-            lines.append("VIOLATION property=%s replay=%s  # oracle=%s cls=%s count=%d observed=%s expected=%s" % (
-                pid, path, g["oracle"], jdump(g["cls"]), g["count"], jdump(ex["observed"])[:200], jdump(ex["expected"])[:200]))
+            lines.append("VIOLATION property=%s replay=%s  # oracle=%s cls=%s count=%d observed=%s expected=%s%s" % (
+                pid, path, g["oracle"], jdump(g["cls"]), g["count"], jdump(ex["observed"])[:200], jdump(ex["expected"])[:200],
+                "" if reproduced == "case" else " reproduced=" + reproduced.split(" ")[0]))
     if len(unknown) > MAX_GROUPS_PRINTED:
         lines.append("# ... %d more violation groups (see evidence)" % (len(unknown) - MAX_GROUPS_PRINTED))
 
@@ -409,6 +421,15 @@ def replay(module, path):
         doc = json.load(f)
     out = module.replay_case(doc["case"])
     pid = module.ID
+    if not out.viol and doc.get("reproduced", "case") != "case" and doc.get("block") is not None:
+        # history-dependent violation: re-run the whole block it was observed in (fresh process, same call sequence)
+        print("replay: the isolated case holds; re-running its block %s" % jdump(doc["block"])[:200])
+        rec = Recorder(pid, doc["block"], 0)
+        module.run_block(doc["block"], rec)
+        for g in rec.viol_groups.values():
+            if g["oracle"] == doc["oracle"]:
+                e = g["examples"][0]
+                out.fail(g["oracle"], e["observed"], e["expected"], g["cls"], {"case": e["case"], "count_in_block": g["count"]})
     print("replay %s case=%s" % (pid, jdump(doc["case"])[:2000]))
     for o, (c, v) in sorted(out.checks.items()):
         print("  oracle %-34s checked=%d vacuous=%d" % (o, c, v))
